@@ -161,10 +161,26 @@ impl Prop for C03 {
                 workers: 16,
                 build: Build::Normal,
             },
+            Leg {
+                name: "huge",
+                kind: LegKind::Random {
+                    cases: tier.pick(4, 40),
+                },
+                workers: 16,
+                build: Build::Normal,
+            },
         ]
     }
 
-    fn strategy(_leg: &str, tier: Tier) -> BoxedStrategy<Case> {
+    fn strategy(leg: &str, tier: Tier) -> BoxedStrategy<Case> {
+        if leg == "huge" {
+            return (gen::huge_wusize(3100), gen::raw_sources())
+                .prop_map(|((g, family), (raw, class))| {
+                    let sources = gen::sources_from(&raw, class, g.order);
+                    Case { g, sources, family }
+                })
+                .boxed();
+        }
         (gen::weighted_usize_big_rate(tier.pick(12, 40), 60), gen::raw_sources())
             .prop_map(|((g, family), (raw, class))| {
                 let sources = gen::sources_from(&raw, class, g.order);
